@@ -207,6 +207,17 @@ func runC19(res *result) {
 		}
 		os.WriteFile(filepath.Join(decoy, "main.frugal"), []byte("struct DecoyMain {\n  1: i32 x\n}\n"), 0o644)
 		locs = append(locs, loc{"cwd=directory-with-same-named-other-files,absolute-file,absolute-out", decoy, filepath.Join(srcA, "main.frugal"), absOut + "8"})
+		// the same output directory spelled in ways that are not in cleaned form
+		dotOut := filepath.Join(base, "dotout")
+		os.MkdirAll(dotOut, 0o755)
+		os.MkdirAll(filepath.Join(base, "x"), 0o755)
+		locs = append(locs,
+			loc{"relative-out-with-leading-dot-slash", base, filepath.Join(srcA, "main.frugal"), "./relout9"},
+			loc{"relative-out-with-trailing-slash", base, filepath.Join(srcA, "main.frugal"), "relout10/"},
+			loc{"relative-out-through-dot-dot", base, filepath.Join(srcA, "main.frugal"), "x/../relout11"},
+			loc{"absolute-out-with-doubled-slash", srcA, "main.frugal", base + "//absout12"},
+			loc{"absolute-out-with-trailing-slash", srcA, "main.frugal", absOut + "13/"},
+			loc{"out-is-dot,cwd=output-directory", dotOut, filepath.Join(srcA, "main.frugal"), "."})
 		var ref map[string]string
 		refName := ""
 		for _, l := range locs {
